@@ -239,7 +239,7 @@ func StripAttributes(node *html.Node) {
 		// An inline element that its style displays as a block (<span style="display:block">)
 		// is an inline element again once the style is gone, and the words before and
 		// after it would run into the words inside it. White space keeps them apart.
-		if getDefaultDisplayStyle(tagName) == "inline" && elem.Parent != nil {
+		if GetDefaultDisplayStyle(tagName) == "inline" && elem.Parent != nil {
 			switch getInlineStyleValue(dom.GetAttribute(elem, "style"), "display") {
 			case "", "inline", "none", "contents":
 			default:
@@ -636,11 +636,11 @@ func GetDisplayStyle(node *html.Node) string {
 		return display
 	}
 
-	return getDefaultDisplayStyle(dom.TagName(node))
+	return GetDefaultDisplayStyle(dom.TagName(node))
 }
 
-// getDefaultDisplayStyle returns the "display" that elements with the specified tag name have by default.
-func getDefaultDisplayStyle(tagName string) string {
+// GetDefaultDisplayStyle returns the "display" that elements with the specified tag name have by default.
+func GetDefaultDisplayStyle(tagName string) string {
 	switch tagName {
 	case "address", "article", "blockquote", "body", "dd", "details", "dialog", "div",
 		"dl", "dt", "fieldset", "figcaption", "figure", "footer", "form", "h1", "h2",
